@@ -167,7 +167,7 @@ def icode_pattern(lines, k):
 STANDARD_NAMES = {"A", "C", "G", "U", "DA", "DC", "DG", "DT"}
 
 
-def with_records(fmt, out, info):
+def with_records(fmt, out, info, mode=1):
     """Text of the presented lines `out` (each carries "_k", the key of its residue in the base) together with
     the records that DESCRIBE the polymer: mmCIF - one polymer entity per chain with the canonical one-letter
     sequence, label_seq_id counting the nucleotides of the chain, non-nucleotides in a non-polymer entity,
@@ -209,14 +209,16 @@ def with_records(fmt, out, info):
         if n["lent"] == 0:
             n["lent"] = nonpoly
     text = atomtable.emit_cif(lines2)
-    ext = ["loop_", "_entity.id", "_entity.type"] + [f"{k + 1} polymer" for k in range(len(chains))]
-    if any(n["lent"] == nonpoly for n in lines2):
-        ext.append(f"{nonpoly} non-polymer")
-    ext += ["#", "loop_", "_entity_poly.entity_id", "_entity_poly.type", "_entity_poly.pdbx_seq_one_letter_code_can"]
-    for k, ch in enumerate(chains):
-        dna = sum(1 for _, _, rn in seqs[ch] if rn.startswith("D") and len(rn) == 2) * 2 > len(seqs[ch])
-        ext.append(f"{k + 1} {'polydeoxyribonucleotide' if dna else 'polyribonucleotide'} {''.join(x for _, x, _ in seqs[ch])}")
-    ext.append("#")
+    ext = []
+    if mode == 1:       # mode 2: the modification records alone, no entity tables
+        ext = ["loop_", "_entity.id", "_entity.type"] + [f"{k + 1} polymer" for k in range(len(chains))]
+        if any(n["lent"] == nonpoly for n in lines2):
+            ext.append(f"{nonpoly} non-polymer")
+        ext += ["#", "loop_", "_entity_poly.entity_id", "_entity_poly.type", "_entity_poly.pdbx_seq_one_letter_code_can"]
+        for k, ch in enumerate(chains):
+            dna = sum(1 for _, _, rn in seqs[ch] if rn.startswith("D") and len(rn) == 2) * 2 > len(seqs[ch])
+            ext.append(f"{k + 1} {'polydeoxyribonucleotide' if dna else 'polyribonucleotide'} {''.join(x for _, x, _ in seqs[ch])}")
+        ext.append("#")
     if modrows:
         ext += ["loop_"] + ["_pdbx_struct_mod_residue." + c for c in
                             ("id", "label_asym_id", "label_comp_id", "label_seq_id", "auth_asym_id", "auth_comp_id",
@@ -228,6 +230,10 @@ def with_records(fmt, out, info):
 class Presenter:
     def __init__(self, lines):
         self.lines = lines
+        # a modified residue whose atoms fit two bases equally well (4-thiouridine) gets its letter from its name or
+        # from the canonical sequence; modification records ALONE make the library re-detect it from the atoms (it
+        # marks the residue as modified and looks at the atoms), so that presentation is not offered for such a base
+        self.ambiguous = any(ln["rn"] == "4SU" for ln in lines)
         self.cmap = chain_map(lines)
         self.base_obj = _read_text("cif", atomtable.emit("cif", lines))
         self.icp = {}
@@ -270,7 +276,8 @@ class Presenter:
                              ch=self.cmap[ln["ch"]] if st["chains"] else ln["ch"], _k=(ln["ch"], ln["num"], ln["ic"]))
                     out.append(n)
             if st.get("records") and self.describable:
-                return _read_text(st["fmt"], with_records(st["fmt"], out, self.info)), inv
+                mode = 1 if (self.ambiguous and st["records"] == 2) else st["records"]
+                return _read_text(st["fmt"], with_records(st["fmt"], out, self.info, mode)), inv
             # (PDB texts in the layout of deposited files: TER closes the polymer of a chain, its hetero groups follow)
             return _read_text(st["fmt"], atomtable.emit_pdb(out, ter_before_het=True) if st["fmt"] == "pdb"
                               else atomtable.emit(st["fmt"], out)), inv
